@@ -3,12 +3,15 @@ package mon
 import (
 	"fmt"
 
+	"github.com/vektah/gqlparser/v2"
 	"github.com/vektah/gqlparser/v2/ast"
+	"github.com/vektah/gqlparser/v2/parser"
 	"github.com/vektah/gqlparser/v2/validator"
 
 	"verif/harness/internal/core"
 	"verif/harness/internal/dgen"
 	"verif/harness/internal/model"
+	"verif/harness/internal/tsys"
 )
 
 // C09 — validated documents are completely and correctly linked to schema definitions.
@@ -18,6 +21,7 @@ func init() {
 		Rule: "documents generated valid by construction (deep list and input-object literals, list-coerced single values, fragments on unions and interfaces, __typename, introspection fields, variables used through fragments, directives at every executable location) are validated; " +
 			"for each document that validation accepts, an independent top-down typing pass over the returned tree recomputes every link from names and the schema's maps and compares by pointer identity: Field.Definition/ObjectDefinition, FragmentSpread.Definition/ObjectDefinition, " +
 			"InlineFragment.ObjectDefinition, FragmentDefinition.Definition, Directive.Definition/Location, VariableDefinition.Definition, Value.ExpectedType/Definition at every depth of every argument, default value, list item and input-object field (custom-scalar contents excepted), Value.VariableDefinition for every variable use. " +
+			"a fixed schema whose (container, member) names collide when flattened into one string is part of every run; one document in four is also parsed afresh and validated with an explicitly empty rule list and with a single rule (the walk links the tree whatever observes it); one document in three is then validated a second time, as the same parsed object, against a second load of the same schema text, and every link must point into the second schema. " +
 			"distinct = distinct (node kind, link, context) classes checked; non-trivial = accepted documents",
 		Assumptions: []string{
 			"the pass is complete by construction: it visits every operation, every fragment definition and every node below them",
@@ -28,8 +32,39 @@ func init() {
 		Check:           c09Check,
 		DistinctClasses: []string{"link-class"},
 		MinEvaluations:  func(tier string) int64 { return 2000 },
-		RequiredCounts:  []string{"documents_linked", "links:Field.Definition", "links:Value.ExpectedType(list-item)", "links:Value.ExpectedType(input-field)", "links:Value.VariableDefinition", "links:Directive.Definition", "links:FragmentSpread.Definition"},
+		RequiredCounts:  []string{"documents_linked", "documents_relinked_to_second_schema", "documents_linked_under_rule_subset", "links:Field.Definition", "links:Value.ExpectedType(list-item)", "links:Value.ExpectedType(input-field)", "links:Value.VariableDefinition", "links:Directive.Definition", "links:FragmentSpread.Definition"},
 	})
+}
+
+// c09KeySchema is a fixed schema whose type, field, argument and input-field names collide when a (container, member) pair
+// is flattened into one string, with or without a separator: (User, profile_id) / (User_profile, id), (User, profileid) /
+// (Userprofile, id), f(a_b) / f_a(b), In.a_b / In_a.b. The colliding members have different types.
+const c09KeySchema = `directive @d(a_b: Int) on FIELD
+directive @d_a(b: String) on FIELD
+input In { a_b: Int b: Boolean a: In_a }
+input In_a { b: String a_b: Float }
+type User { profile_id: Int profileid: String id: ID profile: User_profile other: Userprofile f(a_b: Int, in: In): Int f_a(b: String, in: In_a): String }
+type User_profile { id: String _id: Float user: User f(a_b: Float): Float }
+type Userprofile { id: Boolean user: User }
+type Query { user: User user_profile: User_profile userprofile: Userprofile }`
+
+func c09KeyCases(x *core.Ctx, r *core.Rand, n int) {
+	sd, err := parser.ParseSchema(&ast.Source{Name: "keys.graphql", Input: c09KeySchema})
+	if err != nil {
+		x.HarnessBug("key schema: " + err.Error())
+		return
+	}
+	mg := tsys.Merge(model.FromSchemaAST(sd).Items)
+	rn := &model.Renderer{}
+	for j := 0; j < n; j++ {
+		g := dgen.New(r, mg, &dgen.Opts{MaxDepth: 2 + r.Intn(3), MaxOps: 1 + r.Intn(2), DeepValues: j%2 == 0})
+		doc := g.Doc()
+		if len(doc.Defs) == 0 {
+			continue
+		}
+		c := core.NewCase("pair", "schema", c09KeySchema, "doc", rn.RenderDoc(doc), "expect", "valid")
+		x.Do(c, func() { c09Check(x, c) })
+	}
 }
 
 func c09Run(x *core.Ctx) {
@@ -39,6 +74,7 @@ func c09Run(x *core.Ctx) {
 	}
 	r := x.Rand(uint64(x.Shard))
 	rn := &model.Renderer{}
+	c09KeyCases(x, r, ns*2)
 	for i := 0; i < ns; i++ {
 		sc := c08MakeSchema(r, i)
 		for j := 0; j < 10; j++ {
@@ -61,15 +97,16 @@ type linker struct {
 	reach  map[*ast.OperationDefinition]map[string]bool // fragments reachable from each operation
 	inFrag string
 	curOp  *ast.OperationDefinition
+	tag    string // "" for the first validation, "revalidated:" for the second
 }
 
 func (l *linker) ok(link, ctx string) {
 	l.x.Count("links:" + link)
-	l.x.Distinct("link-class", link+"/"+ctx)
+	l.x.Distinct("link-class", l.tag+link+"/"+ctx)
 }
 
 func (l *linker) bad(link, kind, obs, exp string) {
-	l.x.Violate(link+":"+kind, obs, exp)
+	l.x.Violate(l.tag+link+":"+kind, obs, exp)
 }
 
 func (l *linker) checkDef(link, ctx string, got, want *ast.Definition, where string) {
@@ -314,7 +351,41 @@ func c09Check(x *core.Ctx, c *core.Case) {
 	}
 	x.Count("documents_linked")
 	x.Nontrivial()
-	l := &linker{x: x, s: schema, doc: doc, opOf: map[*ast.VariableDefinition]*ast.OperationDefinition{}, reach: map[*ast.OperationDefinition]map[string]bool{}}
+	c09Links(x, schema, doc, "")
+	// the links are made by the walk, whatever rules observe it: a fresh parse validated with an explicitly empty rule
+	// list, and with one rule, must come back linked in the same way
+	if h := core.HashString(c.Get("doc")); h%4 == 1 {
+		for _, sub := range []struct {
+			tag   string
+			rules []validator.Rule
+		}{{"rules=empty:", []validator.Rule{}}, {"rules=one:", []validator.Rule{c18Standard[int(h>>8)%len(c18Standard)]}}} {
+			d2, perr := parser.ParseQuery(&ast.Source{Name: "doc.graphql", Input: c.Get("doc")})
+			if perr != nil {
+				continue
+			}
+			if errs := validator.Validate(schema, d2, sub.rules...); len(errs) == 0 {
+				x.Count("documents_linked_under_rule_subset")
+				c09Links(x, schema, d2, sub.tag)
+			}
+		}
+	}
+	// the same parsed document validated again against a second load of the same schema text: every link must now
+	// point into the second schema (links left over from the first validation would be stale for that caller)
+	if core.HashString(c.Get("doc"))%3 == 0 {
+		second, err := gqlparser.LoadSchema(&ast.Source{Name: "schema.graphql", Input: c.Get("schema")})
+		if err == nil && len(validator.Validate(second, doc)) == 0 {
+			x.Count("documents_relinked_to_second_schema")
+			c09Links(x, second, doc, "revalidated:")
+		}
+	}
+	if x.WantSample() && len(c.Get("doc")) < 500 {
+		x.Sample(map[string]interface{}{"document": c.Get("doc"), "links_checked_so_far": x.Res.Counts["links:Field.Definition"], "verdict": "every link recomputed by the typing pass equals the link on the tree"})
+	}
+}
+
+// c09Links runs the typing pass over a validated document.
+func c09Links(x *core.Ctx, schema *ast.Schema, doc *ast.QueryDocument, tag string) {
+	l := &linker{tag: tag, x: x, s: schema, doc: doc, opOf: map[*ast.VariableDefinition]*ast.OperationDefinition{}, reach: map[*ast.OperationDefinition]map[string]bool{}}
 	var collect func(ss ast.SelectionSet, into map[string]bool)
 	collect = func(ss ast.SelectionSet, into map[string]bool) {
 		for _, sel := range ss {
@@ -370,9 +441,6 @@ func c09Check(x *core.Ctx, c *core.Case) {
 		l.checkDef("FragmentDefinition.Definition", kindOf(want), f.Definition, want, where)
 		l.directives(f.Directives, ast.LocationFragmentDefinition, where)
 		l.selections(want, f.SelectionSet, where)
-	}
-	if x.WantSample() && len(c.Get("doc")) < 500 {
-		x.Sample(map[string]interface{}{"document": c.Get("doc"), "links_checked_so_far": x.Res.Counts["links:Field.Definition"], "verdict": "every link recomputed by the typing pass equals the link on the tree"})
 	}
 }
 
